@@ -1529,6 +1529,12 @@ write_sub_module(ostream &out, Object *obj) {
 
     InterrogateDatabase *idb = InterrogateDatabase::get_ptr();
     const InterrogateType &wrapped_itype = idb->get_type(wrapped);
+    if (wrapped_itype._cpptype == nullptr) {
+      // The typedef names a type that is not in the database (for instance a
+      // class template that was never instantiated); there is no class to
+      // alias.
+      return;
+    }
 
     class_name = make_safe_name(wrapped_itype.get_scoped_name());
 
